@@ -18,6 +18,23 @@ func ShardInfo() (int, int) {
 	return s, n
 }
 
+// Claim hands out work items dynamically: the first shard to ask for a key gets it. The claims live in a
+// scratch directory the parent creates for the run (VERIF_CLAIMDIR) and removes afterwards; without one the
+// static split n % nshards == shard is used.
+func Claim(key string, n int) bool {
+	dir := os.Getenv("VERIF_CLAIMDIR")
+	shard, nsh := ShardInfo()
+	if dir == "" {
+		return nsh == 0 || n%nsh == shard
+	}
+	f, err := os.OpenFile(dir+"/"+key, os.O_CREATE|os.O_EXCL|os.O_WRONLY, 0o600)
+	if err != nil {
+		return false
+	}
+	f.Close()
+	return true
+}
+
 // EmitResult prints a shard's result for the parent.
 func EmitResult(v interface{}) {
 	b, _ := json.Marshal(v)
@@ -28,6 +45,10 @@ func EmitResult(v interface{}) {
 // (and extra env), and hands every RESULT line to collect. Returns false on an infrastructure failure.
 func RunShards(n int, extraEnv []string, collect func(shard int, raw json.RawMessage)) bool {
 	self, _ := os.Executable()
+	if dir, err := os.MkdirTemp("", "verif-claims-"); err == nil {
+		defer os.RemoveAll(dir)
+		extraEnv = append(append([]string{}, extraEnv...), "VERIF_CLAIMDIR="+dir)
+	}
 	var wg sync.WaitGroup
 	var mu sync.Mutex
 	ok := true
